@@ -456,3 +456,11 @@ func sortedU64(m map[uint64]bool) []uint64 {
 	sort.Slice(out, func(i, j int) bool { return out[i] < out[j] })
 	return out
 }
+
+func wasmSrc(wat string) []byte {
+	b, err := wasmtime.Wat2Wasm(wat)
+	if err != nil {
+		panic(err)
+	}
+	return b
+}
